@@ -84,7 +84,25 @@ def check(c, viol, counters):
                     counters["npu_in_place_pairs"] = counters.get("npu_in_place_pairs", 0) + 1
                     continue
                 # tensors defined by the same op at the same time and overlapping, or genuinely live together
-                v("arena-tensors-overlap-while-live", "%s [%d,%d) live %s and %s [%d,%d) live %s" % (sg.tensors[i1].name, o1, e1, (d1, u1), sg.tensors[i2].name, o2, e2, (d2, u2)))
+                shape_only = set()
+                for ti in (i1, i2):
+                    uses = [(op.builtin, pos) for op in sg.ops for pos, x in enumerate(op.inputs) if x == ti]
+                    if uses and all(b == 22 and pos == 1 for b, pos in uses):
+                        shape_only.add(ti)  # consumed only as the run-time shape operand of RESHAPE operators
+                sfx = ":run-time-shape-operand-of-reshape" if shape_only else ""
+                if not sfx:
+                    # operands of a CPU RESHAPE whose shape is only known at run time
+                    dyn = [op for op in sg.ops if op.builtin == 22 and len(op.inputs) > 1 and op.inputs[1] >= 0 and sg.tensors[op.inputs[1]].data is None]
+                    if any(i1 in op.inputs + op.outputs and i2 in op.inputs + op.outputs for op in dyn):
+                        sfx = ":input-and-output-of-a-run-time-shaped-reshape"
+                if not sfx:
+                    for (ti, dd, uu), (tj, dj, uj) in (((i1, d1, u1), (i2, d2, u2)), ((i2, d2, u2), (i1, d1, u1))):
+                        if dd == -1 and ti in sg.inputs:
+                            first = min([k for k, op in enumerate(sg.ops) if ti in op.inputs] or [len(sg.ops) if ti in sg.outputs else -1])  # a pass-through input is "read" when the outputs are collected
+                            if first > 0 and uj < first:
+                                # a graph input first read later in the graph; the other tensor is dead before that read
+                                sfx = ":graph-input-reserved-only-from-its-first-use"
+                v("arena-tensors-overlap-while-live" + sfx, "%s [%d,%d) live %s and %s [%d,%d) live %s" % (sg.tensors[i1].name, o1, e1, (d1, u1), sg.tensors[i2].name, o2, e2, (d2, u2)))
     extent = max([e for _, e, _, _ in ext] + [0])
     for n in art.npu_ops:
         if n.frame_error is not None:
